@@ -330,6 +330,7 @@ func runC19(r *Run) {
 			}
 		}
 		r.atLeast("wildcard split offsets", n, 4)
+		wildcardOffsetsOnTheirString(r, f, "New:wildcard-position-on-the-same-string")
 		r.check(len(bad) == 0, "New:wildcard-split-offsets", r.pos(idx), fmt.Sprintf("%d offsets relative to Index(entry, %q): prefixes end at the `*`, suffixes start at the following `.`", n, lit),
 			"the stored suffix of a wildcard entry no longer begins with the label separator: `https://*.example.com` then also allows `https://evilexample.com` ("+strings.Join(bad, "; ")+")")
 
@@ -572,4 +573,46 @@ func corsPermitEdges(f *ssa.Function, origin ssa.Value, isList func(ssa.Value) b
 		}
 	}
 	return permit
+}
+
+// wildcardOffsetsOnTheirString: the offsets derived from strings.Index(entry, "://*.") are applied to
+// that very string (or to strings built from its pieces): nothing that can shift positions — a Trim —
+// is applied to a value sliced with those offsets.
+func wildcardOffsetsOnTheirString(r *Run, f *ssa.Function, key string) {
+	var idx *ssa.Call
+	for _, c := range callsMatching(f, false, nameIs("strings.Index")) {
+		if s, ok := constString(asConst(c.Common.Args[1])); ok && strings.Contains(s, "*") {
+			idx, _ = c.Instr.(*ssa.Call)
+		}
+	}
+	r.need(idx != nil, "the wildcard is located with strings.Index")
+	fromIdx := func(v ssa.Value) bool {
+		return dependsOn(v, func(x ssa.Value) bool {
+			sl, ok := x.(*ssa.Slice)
+			if !ok {
+				return false
+			}
+			for _, b := range []ssa.Value{sl.Low, sl.High} {
+				if b != nil {
+					if base, _ := splitOffset(b); base == ssa.Value(idx) {
+						return true
+					}
+				}
+			}
+			return false
+		}) != nil
+	}
+	bad := ""
+	withoutHelpers(func() {
+		for _, c := range callsIn(f, false) {
+			if !strings.Contains(c.Name, "utils/v2.Trim") && !strings.HasPrefix(c.Name, "strings.Trim") {
+				continue
+			}
+			if len(c.Common.Args) > 0 && fromIdx(c.Common.Args[0]) {
+				bad = r.pos(c.Instr)
+			}
+		}
+	})
+	r.check(bad == "", key, r.pos(idx), "no trimming happens between locating the wildcard and applying its position",
+		"the entry is trimmed ("+bad+") after the wildcard was located in the untrimmed text: for an entry with a leading blank the split lands one byte late, the stored suffix loses its leading dot and origins outside the domain are matched while the legitimate subdomains are not")
 }
